@@ -154,7 +154,7 @@ def check(ctx):
                 why = f"closes={closes} reraises={reraises} resources_opened_before_try={opens_before}"
     ctx.ob("R2", f"{SP}:cmds_to_specs", "any failure (BaseException) while building specs closes every spec built so far and re-raises", ok, key="cmds_to_specs|no-cleanup", detail=why)
     pl = ctx.repo.module(PL)
-    ci = pl.func("CommandPipeline.__init__")
+    ci = flat(ctx, pl.func("CommandPipeline.__init__"), depth=2, skip=("_return_terminal", "print_exception", "close", "close_reader"))
     run_try = None
     for n in ast.walk(ci):
         if isinstance(n, ast.Try) and any(any((call_name(c) or "").endswith(".run") for c in calls_in(s)) for s in n.body):
@@ -163,7 +163,21 @@ def check(ctx):
         raise AnchorMissing(f"{PL}:CommandPipeline.__init__: try around spec.run() not found")
     h = run_try.handlers[0]
     hsrc = ast.Module(body=h.body, type_ignores=[])
-    closes_rest = any(isinstance(s, ast.For) and unparse(s.iter) in ("specs", "specs[i:]", "self.specs", "self.specs[i:]") and any(call_name(c) == f"{unparse(s.target)}.close" for c in calls_in(s, local=False)) for s in ast.walk(hsrc))
+    # the list of stages: what the loop around the try iterates (possibly through enumerate), or self.specs
+    stage_lists = {"self.specs"}
+    for a_ in ancestors(run_try):
+        if isinstance(a_, ast.For):
+            it_ = a_.iter
+            if isinstance(it_, ast.Call) and call_name(it_) == "enumerate" and it_.args:
+                it_ = it_.args[0]
+            stage_lists.add(unparse(it_))
+    stage_lists |= {c_ for nm_ in list(stage_lists) if nm_.isidentifier() for c_ in copies_of(df.all_defs(ci), nm_)}
+
+    def is_stage_list(e):
+        t_ = unparse(e.value if isinstance(e, ast.Subscript) and isinstance(e.slice, ast.Slice) and e.slice.upper is None else e)
+        return t_ in stage_lists
+
+    closes_rest = any(isinstance(s, ast.For) and is_stage_list(s.iter) and any(call_name(c) == f"{unparse(s.target)}.close" for c in calls_in(s, local=False)) for s in ast.walk(hsrc))
     ctx.ob("R2", f"{PL}:CommandPipeline.__init__", "when a stage fails to start, the failing and the remaining specs are closed", closes_rest, key="pipeline-init|rest-not-closed", where=loc(h))
     rt = any(call_name(c) == "self._return_terminal" for c in calls_in(hsrc, local=False))
     ctx.ob("R2", f"{PL}:CommandPipeline.__init__", "when a stage fails to start, the terminal is returned to the shell", rt, key="pipeline-init|terminal-not-returned", where=loc(h))
@@ -232,14 +246,28 @@ def check(ctx):
     for name, field in (("close_writer", "self._write_fd"), ("close_reader", "self._read_fd")):
         fn = pp.func(f"PipeChannel.{name}")
         fcfg = CFG(fn)
-        clear = [n for n in fcfg.nodes if n.kind == "stmt" and isinstance(n.ast, ast.Assign) and unparse(n.ast.targets[0]) == field and const_value(n.ast.value, 0) is None]
+        fdefs = df.all_defs(fn)
+
+        def bound(d):
+            """expression a definition binds (element of the tuple for `a, b = x, y`)"""
+            if d.kind == "unpack" and isinstance(d.value, (ast.Tuple, ast.List)) and d.index is not None and d.index < len(d.value.elts):
+                return d.value.elts[d.index]
+            return d.value
+
+        clear = [n for d in fdefs.get(field, []) if bound(d) is not None and isinstance(bound(d), ast.Constant) and bound(d).value is None for n in fcfg.nodes_of(d.stmt)]
         osc = [n for n in fcfg.nodes if n.kind == "stmt" and any(call_name(c) == "os.close" for c in calls_in(n.ast))]
         locked = all(any(isinstance(a_, ast.With) and "_lock" in unparse(a_.items[0].context_expr) for a_ in ancestors(n.ast)) for n in clear)
         ok = bool(clear) and bool(osc) and locked and all(fcfg.dominated(o, lambda m_: m_ in clear) for o in osc)
         ctx.ob("R5", f"{PP}:PipeChannel.{name}", f"{field} is cleared under the lock before os.close (a second call finds None: idempotent, no double close of a reused fd)", ok, key=f"{name}|clear-before-close", where=loc(fn))
-        fdefs = df.all_defs(fn)
-        arg_ok = all(unparse(df.resolve_copy(fdefs, c.args[0])) == field for n in osc for c in calls_in(n.ast) if call_name(c) == "os.close")
-        guard_ok = all(any("is not None" in f or ("is None" in f and f.startswith("not ")) for f in facts_text(facts_at(fcfg, o))) for o in osc)
+        arg_ok = guard_ok = bool(osc)
+        for o in osc:
+            for c in calls_in(o.ast):
+                if call_name(c) != "os.close":
+                    continue
+                a0 = c.args[0] if c.args else None
+                ds = fdefs.get(a0.id, []) if isinstance(a0, ast.Name) else []
+                arg_ok = arg_ok and bool(ds) and all(bound(d) is not None and unparse(bound(d)) == field for d in ds)
+                guard_ok = guard_ok and a0 is not None and (f"{unparse(a0)} is None", False) in nfacts(fcfg, o)
         ctx.ob("R5", f"{PP}:PipeChannel.{name}", "os.close receives the value read from the field and only if it is not None", arg_ok and guard_ok, key=f"{name}|close-arg", where=loc(fn))
     for name in ("open_writer", "open_reader"):
         fn = pp.func(f"PipeChannel.{name}")
@@ -295,13 +323,13 @@ def check(ctx):
     # that it does not matter in which of end/_end/_raise_subproc_error the raise or the hand-back lives
     from ..engine import inline
 
-    flat = inline.flatten(ctx.repo, endf, depth=3, skip=("_return_terminal", "tee_stdout", "print_exception"))
-    fcf = CFG(flat)
-    ctx.extra["end_expanded_helpers"] = sorted({h for _, h in flat._xv_expanded})
+    flat_end = inline.flatten(ctx.repo, endf, depth=3, skip=("_return_terminal", "tee_stdout", "print_exception"))
+    fcf = CFG(flat_end)
+    ctx.extra["end_expanded_helpers"] = sorted({h for _, h in flat_end._xv_expanded})
     rt = [n for n in fcf.nodes if n.kind == "stmt" and any(call_name(c) == "self._return_terminal" for c in calls_in(n.ast))]
     raises = [n for n in fcf.nodes if n.kind == "stmt" and isinstance(n.ast, ast.Raise)]
-    if not any("_raise_subproc_error" in h for _, h in flat._xv_expanded):
-        raise AnalysisError(f"{PL}:CommandPipeline.end: the raising step was not reached by helper expansion ({sorted({h for _, h in flat._xv_expanded})})")
+    if not any("_raise_subproc_error" in h for _, h in flat_end._xv_expanded):
+        raise AnalysisError(f"{PL}:CommandPipeline.end: the raising step was not reached by helper expansion ({sorted({h for _, h in flat_end._xv_expanded})})")
     for r in raises:
         ok, path = fcf.must_pass([r], lambda m_: m_ in rt, exits=("raise",)) if rt else (False, None)
         ctx.ob(
